@@ -400,15 +400,21 @@ def explore(check, tier, base_seed, jobs, want_digests=False, items=None,
 				agg.merge(a)
 			else:
 				singles.extend([it] for it in ch)
-		if singles:
+		# single seeds, a wave at a time; three reproducible crashes are enough to
+		# report -- the rest of the lost chunks is counted as not run
+		pos = 0
+		while pos < len(singles) and len(info["crashes"]) < 3:
+			wave = singles[pos:pos + jobs]
+			pos += len(wave)
 			with ThreadPoolExecutor(max_workers=jobs) as tp2:
-				results = list(tp2.map(isolate, singles))
+				results = list(tp2.map(isolate, wave))
 			for ch, a, rc, tail in results:
 				if a is not None and rc == 0:
 					agg.merge(a)
 				else:
 					info["crashes"].append({"leg": ch[0][0], "seed": ch[0][1],
 						"returncode": rc, "tail": tail[-1500:]})
+		info["not_run_after_crashes"] = len(singles) - pos
 
 	for ch, fut in fresh_futs:
 		a, rc, tail = fut.result()
@@ -643,6 +649,7 @@ def write_evidence(check, tier, base_seed, agg, info, wall, reported, known_hit,
 		"unreproduced": unreproduced,
 		"harness_errors": len(agg.errors),
 		"truncated_by_wall_cap": bool(info.get("truncated")),
+		"not_run_after_crashes": int(info.get("not_run_after_crashes", 0) or 0),
 		"planned_runs": info.get("n_planned"),
 		"tree": repo.tree_id(),
 		"jobs": int(os.environ.get("VERIF_JOBS", "0") or 0) or (os.cpu_count() or 4),
